@@ -2,6 +2,7 @@ SPECIFICATION GSpec
 CONSTANTS
   Mode = "texts"
   MaxLen = 2
+  SteerOverlapBytes = TRUE
   NA = 5
 INVARIANT ByteGramsOk
 CHECK_DEADLOCK FALSE
